@@ -9,6 +9,7 @@ Proofs/C10Loop.lean and Proofs/C11Model.lean.
 """
 import json
 import math
+import os
 import struct
 import core
 
@@ -26,6 +27,21 @@ def unbits(tok):
     if tok == '-':
         return []
     return [struct.unpack('<d', struct.pack('<Q', int(t)))[0] for t in tok.split(',')]
+
+
+def zs_of(dists, X):
+    """latent coordinates z_i = Phi^-1( F_i( x_i ) ) of a point, any family (nan where undefined)"""
+    from scipy import stats
+    out = []
+    for ds, x in zip(dists, X):
+        try:
+            c = float(ds.cdf(float(x)))
+            # the tail that is better resolved
+            z = float(stats.norm.ppf(c)) if c < 0.5 else -float(stats.norm.ppf(float(ds.sf(float(x)))))
+        except Exception:  # noqa
+            z = float('nan')
+        out.append(z)
+    return out
 
 
 def close(a, b, rtol, atol):
@@ -47,11 +63,28 @@ def gen_problem(rng, np, stats, dmax=5, lognormal=True):
     d = rng.choice([1, 2, 2, 3, 3, 4, dmax])
     kinds, p1, p2, dists = [], [], [], []
     for _ in range(d):
-        if lognormal and rng.random() < 0.4:
+        r = rng.random()
+        if lognormal and r < 0.3:
             m = rng.choice([0.0, 0.5, -0.3, 1.2, 3.0])
             s = rng.choice([0.1, 0.25, 0.5, 0.8])
             kinds.append('l'); p1.append(m); p2.append(s)
             dists.append(stats.lognorm(s, scale=math.exp(m)))
+        elif lognormal and r < 0.55 and os.environ.get('VERIF_MODEL_FAMILIES', 'all') == 'all':
+            # the other closed-form families: the model gets their composed maps from the driver's double-precision Phi / Phi^-1
+            fam = rng.choice(['e', 'u', 'g', 'w'])
+            if fam == 'e':
+                a, b = 0.0, rng.choice([0.5, 1.0, 2.0, 30.0])
+                dists.append(stats.expon(scale=b))
+            elif fam == 'u':
+                a, b = rng.choice([0.0, -1.0, 10.0]), rng.choice([1.0, 3.0, 0.5])
+                dists.append(stats.uniform(a, b))
+            elif fam == 'g':
+                a, b = rng.choice([0.0, 1.0, 20.0]), rng.choice([1.0, 2.0, 0.5])
+                dists.append(stats.gumbel_r(a, b))
+            else:
+                a, b = rng.choice([1.5, 2.0, 3.0]), rng.choice([1.0, 2.0, 10.0])
+                dists.append(stats.weibull_min(a, scale=b))
+            kinds.append(fam); p1.append(a); p2.append(b)
         else:
             mu = float(rng.choice([-3, 0, 1, 2, 5, 40, 500]))
             sg = float(rng.choice([0.5, 1, 2, 3, 25]))
@@ -82,12 +115,27 @@ def gen_problem(rng, np, stats, dmax=5, lognormal=True):
     return d, kinds, p1, p2, dists, R
 
 
+def normal_functions(res):
+    """the driver's double-precision Phi, phi, Phi^-1 (used to build the composed maps of the exponential / uniform / Gumbel / Weibull
+    marginals of the model) against scipy, on a grid of z in [-8.5, 5]"""
+    from scipy import stats
+    zs = [-8.5, -8.0, -7.0, -6.0, -5.0, -4.0, -3.0, -2.0, -1.5, -1.0, -0.99, -0.5, -0.3, 0.0, 0.2, 0.7, 0.999, 1.0, 1.4, 2.0, 2.5, 3.0, 4.0, 5.0]
+    out = unbits(core.driver_batch(['normalfloat ' + fcsv(zs)])[0])
+    res.evaluations += 1
+    for i, z in enumerate(zs):
+        P, p, zi = out[3 * i:3 * i + 3]
+        if abs(P - stats.norm.cdf(z)) > 1e-13 * stats.norm.cdf(z) or abs(p - stats.norm.pdf(z)) > 1e-13 * stats.norm.pdf(z) or abs(zi - z) > 1e-10:
+            res.disagreements.append({'what': "driver's normal cdf / pdf / quantile vs scipy", 'input': z, 'model': [P, p, zi],
+                                      'impl': [float(stats.norm.cdf(z)), float(stats.norm.pdf(z)), z]})
+
+
 def nataf_stream(res, rng, n):
     """L, L^-1, latent correlation, getU / getX and their matrices: model vs implementation"""
     core.import_impl()
     import numpy as np
     from scipy import stats
     from ffpack import rpm
+    normal_functions(res)
     reqs, meta = [], []
     for i in range(n):
         d, kinds, p1, p2, dists, R = gen_problem(rng, np, stats)
@@ -130,6 +178,8 @@ def nataf_stream(res, rng, n):
                               fcsv(x), fcsv(u)]))
         meta.append((case, nat, U, JU, X, JX, d))
         res.stat('nataf_dim_%d' % d)
+        for kd in kinds:
+            res.stat('nataf_family_' + kd)
         res.stat('nataf_' + ('lognormal' if 'l' in kinds else 'normal') + ('_corr' if not np.allclose(R, np.eye(d)) else '_indep'))
     outs = core.driver_batch(reqs)
     for line, (case, nat, U, JU, X, JX, d) in zip(outs, meta):
@@ -140,8 +190,11 @@ def nataf_stream(res, rng, n):
             res.disagreements.append({'what': 'nataf model: bad answer', 'input': case, 'model': line[:200]})
             continue
         lat, pd, L, Linv, mU, mJU, mX, mJX = toks
+        kds = case['kinds']
+        nl_pair = lambda k_: kds[k_ // d] in 'nl' and kds[k_ % d] in 'nl'       # closed forms exist for normal / lognormal pairs only
         checks = [
-            ('latent correlation (closed form) vs rhoZ', unbits(lat), np.array(nat.rhoZ).flatten().tolist(), 0.0, 2e-6),
+            ('latent correlation (closed form) vs rhoZ', [v for k_, v in enumerate(unbits(lat)) if nl_pair(k_)],
+             [v for k_, v in enumerate(np.array(nat.rhoZ).flatten().tolist()) if nl_pair(k_)], 0.0, 2e-6),
             ('Cholesky factor L', unbits(L), np.array(nat.L).flatten().tolist(), 1e-11, 1e-12),
             ('L^-1 (triangular solve)', unbits(Linv), np.linalg.inv(np.array(nat.L)).flatten().tolist(), 1e-9, 1e-10),
             ('getU value', unbits(mU), np.array(U).tolist(), 1e-8, 1e-8),
@@ -211,8 +264,10 @@ def form_stream(res, rng, n):
             out, status = None, 'raised:' + repr(e)[:100]
         reqs.append(' '.join(['hlrf', str(d), ','.join(kinds), fcsv(p1), fcsv(p2), fcsv(np.array(nat.rhoZ).flatten()), fbits(tol), str(iters),
                               fbits(c0), fcsv(b), fcsv(Q.flatten())]))
-        meta.append(('hlrf', case, status, out, [c.tolist() for c in calls], d, nat))
+        meta.append(('hlrf', case, status, out, [c.tolist() for c in calls], d, nat, dists))
         res.stat('form_' + shape)
+        for kd in kinds:
+            res.stat('form_family_' + kd)
         res.stat('form_iter_%s' % ('default' if iters == 1000 else iters))
         if all(k == 'n' for k in kinds) and np.allclose(R, np.eye(d)):
             gq = lambda X, c0=c0, b=b, Q=Q: c0 + float(b @ np.array(X, dtype=float)) + float(np.array(X, dtype=float) @ Q @ np.array(X, dtype=float))
@@ -223,10 +278,10 @@ def form_stream(res, rng, n):
                                      'impl_output': repr(e)[:200]})
                 continue
             reqs.append(' '.join(['fosm', str(d), fcsv(p1), fcsv(p2), fbits(c0), fcsv(b), fcsv(Q.flatten())]))
-            meta.append(('fosm', case, None, bf, None, d, None))
+            meta.append(('fosm', case, None, bf, None, d, None, None))
             res.stat('fosm')
     outs = core.driver_batch(reqs)
-    for line, (what, case, status, out, calls, d, nat) in zip(outs, meta):
+    for line, (what, case, status, out, calls, d, nat, dists) in zip(outs, meta):
         res.evaluations += 1
         import numpy as np
         if what == 'fosm':
@@ -263,18 +318,14 @@ def form_stream(res, rng, n):
         def tail_floor(X):
             # the implementation maps z -> ppf( cdf( z ) ): in the upper tail cdf( z ) = 1 - q is rounded to 1.1e-16, i.e. z is only
             # known to 1.1e-16 / phi( z ) (DESIGN 7, numerical limits (1)); 1e-8 up to z = 5.4, 3e-6 at z = 6.8
-            zs = [((x - a) / b2 if kd == 'n' else ((math.log(x) - a) / b2 if x > 0 else 0.0)) for x, kd, a, b2 in zip(X, case['kinds'], case['p1'], case['p2'])]
+            zs = zs_of(dists, X)
             zmax = min(max([0.0] + [z for z in zs if z == z]), 30.0)
             return max(1e-8, 4e-16 / (math.exp(-0.5 * zmax * zmax) / math.sqrt(2 * math.pi)))
         def in_range(X):
             # outside |z| <= 8 the implementation's route through cdf / ppf saturates or underflows (DESIGN 7); non-finite iterates likewise
-            for x, kd, a, b2 in zip(X, case['kinds'], case['p1'], case['p2']):
-                if x != x or abs(x) == float('inf') or (kd == 'l' and x <= 0):
-                    return False
-                z = (x - a) / b2 if kd == 'n' else (math.log(x) - a) / b2
-                if abs(z) > 8.0:
-                    return False
-            return True
+            if any(x != x or abs(x) == float('inf') for x in X):
+                return False
+            return all(z == z and abs(z) <= 8.0 for z in zs_of(dists, X))
         prev, bad, diverged = 0.0, False, False
         for k, X in enumerate(calls[:min(len(calls), len(its) + 1, 40)]):
             Xm = [float(v) for v in nat.getX([1.0] * d)[0]] if k == 0 else its[k - 1][1 + d:1 + 2 * d]
